@@ -911,3 +911,100 @@ def csvsplit(ctx):
            "split(',')" % len(users) if not bad else
            "a feature string is split on ',' without CSV unquoting: %s; a quoted cell containing a "
            "comma shifts every later column" % "; ".join(bad))
+
+
+def bigram_details_shape(ctx):
+    """BIGRAMROW (C16, C18): two shapes of Model::write_bigram_details that the row templates do not
+    show.
+      * the `,` between the cells of a bigram.left/right line is written exactly when the cell
+        index is non-zero (a separator in front of the first cell only shifts every column);
+      * in the bigram.cost loop the position in `bigram_weight_indices()` *is* the left feature
+        id (slot 0 = BOS/EOS), so the id looked up in the id->string map is that position, not
+        position +- 1."""
+    from flow import bool_switch_targets
+    from r_cand import _lin
+    import fmt as _fmt
+    crate = ctx.facts("A").lib
+    E = Effects(crate)
+    p = "vibrato::trainer::model::Model::write_bigram_details"
+    f = crate.fns.get(p)
+    if f is None or not f.body:
+        raise EngineError("BIGRAMROW: anchor lost: %s" % p)
+    fa = E.fa(p)
+    S = Sym(E, fa)
+    seps = [tc for tc in _fmt.text_calls(E, fa)
+            if tc["kind"] in ("write_fmt", "write_all") and [q[1] for q in tc["pieces"] if q[0] == "lit"] == [","]
+            and not [q for q in tc["pieces"] if q[0] == "arg"]]
+    ctx.floor("BIGRAMROW", "separator writes", len(seps), 2)
+    for k, tc in enumerate(seps):
+        b = tc["b"]
+        guard = None
+        for d in sorted(fa.dominators().get(b, ()), reverse=True):
+            t = fa.term(d)
+            if t["k"] != "switch":
+                continue
+            e = S.operand(t["op"])
+            if e[0] == "binop" and e[1] in ("Ne", "Eq", "Gt", "Lt", "Ge", "Le") and "<idx>" in show(e):
+                guard = (d, e, t)
+                break
+        ok, why = False, "no comparison of the cell index guards the separator"
+        if guard is not None:
+            d, e, t = guard
+            f_t, t_t = bool_switch_targets(t)
+            on_true = b in fa.reachable(t_t, avoid={f_t})
+            (lt, lc), (rt, rc) = _lin(e[2]), _lin(e[3])
+            opn = e[1] if on_true else {"Ne": "Eq", "Eq": "Ne", "Gt": "Le", "Le": "Gt", "Lt": "Ge", "Ge": "Lt"}[e[1]]
+            # separator iff idx != 0  (idx > 0, idx >= 1, 0 < idx ...)
+            idx_left = "<idx>" in lt
+            c = (rc - lc) if idx_left else (lc - rc)      # idx OP c   /  c OP idx
+            if idx_left:
+                ok = (opn == "Ne" and c == 0) or (opn == "Gt" and c == 0) or (opn == "Ge" and c == 1)
+            else:
+                ok = (opn == "Ne" and c == 0) or (opn == "Lt" and c == 0) or (opn == "Le" and c == 1)
+            why = "separator written when %s %s %s (%s edge)" % (show(e[2])[-30:], e[1], show(e[3]), "true" if on_true else "false")
+        ctx.ob("BIGRAMROW", "%s|separator|%d" % (p, k), ok, fa.loc(b),
+               "the cell separator is written exactly for cell indices > 0" if ok else
+               "the `,` between cells is not written exactly for cell indices > 0 (%s): the line "
+               "starts with a separator or cells run together" % why)
+    # position in bigram_weight_indices == left feature id
+    n = 0
+    for b, t in fa.calls():
+        nm = {strip_generics(x).rsplit("::", 1)[-1] for x in callee_paths(t)}
+        if "get" not in nm or len(t["args"]) != 2:
+            continue
+        key = S.operand(t["args"][1])
+        cur = strip_casts(key)
+        for _ in range(4):
+            if cur[0] == "call" and cur[1].rsplit("::", 1)[-1] in ("unwrap", "try_from", "from", "from_u32") and cur[2]:
+                cur = strip_casts(cur[2][0])
+        t_, c_ = _lin(cur)
+        if "<idx>" not in t_:
+            continue
+        # which iterator does the index come from?
+        src = ""
+        if cur[0] == "ap" or True:
+            base = cur
+            while base[0] == "binop":
+                base = strip_casts(base[2])
+            if base[0] == "ap" and base[1].root[0] == "call":
+                ct = fa.term(base[1].root[1])
+                chain = []
+                x = ct
+                for _ in range(6):
+                    chain.append(sorted({strip_generics(y).rsplit("::", 1)[-1] for y in callee_paths(x)})[0])
+                    if not x["args"]:
+                        break
+                    o = fa.origin(x["args"][0])
+                    if o[0] != "call":
+                        break
+                    x = o[2]
+                src = " <- ".join(chain)
+        if "bigram_weight_indices" not in src:
+            continue
+        n += 1
+        ok = c_ == 0
+        ctx.ob("BIGRAMROW", "%s|position-is-left-feature-id" % p, ok, fa.loc(b),
+               "the position in bigram_weight_indices() is used as the left feature id" if ok else
+               "the left feature id is looked up as position %+d in bigram_weight_indices(): the "
+               "feature text of a neighbouring id is written in front of the costs" % c_)
+    ctx.floor("BIGRAMROW", "id lookups by table position", n, 1)
